@@ -32,7 +32,8 @@ VARIABLES design,      \* the abstract design (see PickAPI / PickSvc / Pick* for
           srvOps,      \* set of Op
           doc3, doc2,  \* sets of Op
           verdicts,    \* [valid3, valid2, jy3, jy2, facts3, facts2]
-          xflag        \* part 2: "none" | "null" (the body of the exchange carries an explicit null for attribute 1)
+          xflag        \* part 2: "none" | "null" (the body carries an explicit null for attribute 1) | "omit" (a raw request
+                       \* that leaves attribute 1 out although it is required)
 ovars == <<design, opc, mounts, srvOps, doc3, doc2, verdicts>>
 hvars == <<vars, xflag>>     \* the exchange (HTTPTransport's variables and xflag)
 
@@ -391,16 +392,42 @@ XTypeReject ==
   /\ pc = "route" /\ \E i \in PIdx : wire[i].loc # "none" /\ Malformed(wire[i].v)
   /\ pc' = "cswitch" /\ status' = 400 /\ errname' = "invalid_field_type"
   /\ UNCHANGED <<cfg, pv, rv, wire, delivered, invoked, rwire, returned, cerr>>
+\* the method shapes of the exchanges (an MC module may replace XAttrs by a sample of XAttrsAll)
+XAttrsAll == {x \in AttrSpace : x.nest \in XNests}
+XAttrs == XAttrsAll
+Idle == /\ pc = "encode" /\ wire = <<>> /\ delivered = <<>> /\ invoked = FALSE /\ status = 0 /\ errname = "none"
+        /\ rwire = <<>> /\ returned = <<>> /\ cerr = "none"
 XInit ==
-  /\ \E a \in {x \in AttrSpace : x.nest \in XNests} : \E v \in PayloadVals(a) \cup MalVals(a), fl \in {"none", "null"} :
+  /\ \E a \in XAttrs : \E v \in PayloadVals(a) \cup MalVals(a) \cup {Absent}, fl \in {"none", "null", "omit"} :
+       /\ (fl = "none" => v \in PayloadVals(a) \cup MalVals(a))
        /\ (fl = "null" => v = Absent /\ a.loc = "body" /\ a.nest = "direct" /\ CanBeAbsent(a))
+       /\ (fl = "omit" => v = Absent /\ a.mode = "required" /\ a.loc # "path" /\ a.nest \in {"direct", "alias", "nested"} /\ a.rule = "none")
        /\ cfg = [pa |-> <<a>>, ra |-> <<FixedAttr>>, tagged |-> FALSE, devs |-> Deviations] /\ pv = <<v>> /\ xflag = fl
-  /\ rv = <<FixedVal>> /\ pc = "encode" /\ wire = <<>> /\ delivered = <<>> /\ invoked = FALSE /\ status = 0 /\ errname = "none"
-  /\ rwire = <<>> /\ returned = <<>> /\ cerr = "none"
-XNext == (IF pc = "route" /\ \E i \in PIdx : wire[i].loc # "none" /\ Malformed(wire[i].v) THEN XTypeReject ELSE Next) /\ UNCHANGED xflag
-\* request family: the exchange above; response family: HTTPTransport's own enumeration (Family = "res")
+  /\ rv = <<FixedVal>> /\ Idle
+\* response family: one result attribute (as HTTPTransport's PickR / PickDone choose it)
+XInitRes ==
+  /\ \E a \in {x \in XAttrs : ResAttrOK(x)} : \E v \in PayloadVals(a) :
+       \E t \in (IF a.kind = "string" /\ a.nest = "direct" /\ a.rule = "none" THEN BOOLEAN ELSE {FALSE}) :
+         /\ (v = Absent => a.mode # "required")
+         /\ cfg = [pa |-> <<FixedAttr>>, ra |-> <<a>>, tagged |-> t, devs |-> Deviations] /\ rv = <<v>>
+  /\ pv = <<FixedVal>> /\ xflag = "none" /\ Idle
+\* request_elements.go.tpl under server.required_cookie_resets_errors: errors found while decoding the body end the request at
+\* once; those of path, query and header elements are accumulated, and forgotten when a required cookie is read
+CookieResets == Dev("server.required_cookie_resets_errors") /\ \E i \in PIdx : cfg.pa[i].loc = "cookie" /\ cfg.pa[i].mode = "required"
+XValidateReset ==
+  /\ pc = "validate" /\ CookieResets
+  /\ LET keep == {i \in PIdx : cfg.pa[i].loc \in {"body", "cookie"}} IN
+       IF \A i \in keep : ServerValid(cfg.pa[i], delivered[i])
+       THEN pc' = "invoke" /\ UNCHANGED <<status, errname>>
+       ELSE /\ pc' = "cswitch" /\ status' = 400
+            /\ errname' \in {ServerViolation(cfg.pa[i], delivered[i]) : i \in {j \in keep : ~ServerValid(cfg.pa[j], delivered[j])}}
+  /\ UNCHANGED <<cfg, pv, rv, wire, delivered, invoked, rwire, returned, cerr>>
+XNext == (IF pc = "route" /\ \E i \in PIdx : wire[i].loc # "none" /\ Malformed(wire[i].v) THEN XTypeReject
+          ELSE IF pc = "validate" /\ CookieResets THEN XValidateReset
+          ELSE Next) /\ UNCHANGED xflag
 \* with several attributes per method (simulation) the exchange is drawn attribute by attribute by HTTPTransport's Init / Pick*
-XSpec == (IF Family = "req" /\ NPA = 1 THEN XInit ELSE Init /\ xflag = "none") /\ OInit /\ [][XNext /\ UNCHANGED ovars]_<<hvars, ovars>>
+XSpec == (IF NPA = 1 /\ NRA = 1 THEN (IF Family = "req" THEN XInit ELSE XInitRes) ELSE Init /\ xflag = "none")
+         /\ OInit /\ [][XNext /\ UNCHANGED ovars]_<<hvars, ovars>>
 
 \* C14
 Answered == pc \in {"cswitch", "cdecode", "cvalidate", "done"}          \* the server has answered
